@@ -516,12 +516,17 @@ def readonly_graph(prog: Program) -> RuleResult:
         if not isinstance(fn, FuncNode) or "." in qual:
             continue
         params = func_params(fn)
-        if "graph" not in params:
+        gname = None
+        for arg in fn.args.args:  # type: ignore[attr-defined]
+            ann = ast.unparse(arg.annotation) if arg.annotation is not None else ""
+            if ann.startswith(("Mapping[", "Dict[")) and "Set[" in ann:
+                gname = arg.arg
+        if gname is None:
             continue
         n += 1
         construct = f"{modname}:{qual}/graph-readonly"
         # names aliasing the graph or a value stored in it
-        alias: Set[str] = {"graph"}
+        alias: Set[str] = {gname}
         changed = True
         while changed:
             changed = False
@@ -555,7 +560,7 @@ def readonly_graph(prog: Program) -> RuleResult:
                 for tgt in tgts:
                     if isinstance(tgt, ast.Subscript) and _root_name(tgt) in alias:
                         bad.append(node)
-                    if isinstance(node, ast.AugAssign) and isinstance(tgt, ast.Name) and tgt.id in alias and tgt.id != "graph":
+                    if isinstance(node, ast.AugAssign) and isinstance(tgt, ast.Name) and tgt.id in alias and tgt.id != gname:
                         bad.append(node)
             elif isinstance(node, ast.Call) and isinstance(node.func, ast.Attribute) and node.func.attr in MUTATORS:
                 if _root_name(node.func.value) in alias:
